@@ -138,6 +138,7 @@ type Env struct {
 	f       *sif.FileImage
 	wrap    func(sif.ReadWriter) sif.ReadWriter // optional I/O interposer (C09)
 	fileSeq int
+	lastForeign string
 }
 
 func (e *Env) Close() {
@@ -319,6 +320,9 @@ func (e *Env) Apply(op *Op) []string {
 	case "load":
 		e.Close()
 		e.backend = op.Backend
+		if op.Foreign {
+			op.Path = e.lastForeign
+		}
 		b, err := os.ReadFile(op.Path)
 		if err != nil {
 			return []string{"res err:other"}
@@ -407,6 +411,16 @@ func (e *Env) Apply(op *Op) []string {
 		return []string{"q ok ids=" + strings.Join(ids, ",")}
 	case "dumpfile":
 		return []string{"dumped"}
+	case "mkimg":
+		// the Lean encoder writes the file now, so that the library can load it next
+		e.fileSeq++
+		op.Path = foreignPath(e.dir, e.fileSeq)
+		e.lastForeign = op.Path
+		out, err := runDriver(op.Img.lines(op.Path))
+		if err != nil || len(out) != 1 || out[0] != "made" {
+			return []string{"mkimg-failed"}
+		}
+		return []string{"made"}
 	}
 	// mutators
 	if e.f == nil {
